@@ -1,5 +1,5 @@
 use std::{borrow::Cow, mem::MaybeUninit};
-use ohkami_lib::{percent_decode_utf8, Slice};
+use ohkami_lib::Slice;
 
 
 pub struct Path(
@@ -17,6 +17,14 @@ impl Params {
     const LIMIT: usize = 2;
 }
 
+/// `%FF` is a valid request path, and not UTF-8
+fn lossy_percent_decode_utf8(bytes: &[u8]) -> Cow<'_, str> {
+    match ohkami_lib::percent_decode(bytes) {
+        Cow::Borrowed(bytes) => String::from_utf8_lossy(bytes),
+        Cow::Owned(bytes)    => Cow::Owned(String::from_utf8_lossy(&bytes).into_owned()),
+    }
+}
+
 const _: () = {
     impl Params {
         fn iter(&self) -> impl Iterator<Item = &Slice> {
@@ -32,8 +40,7 @@ const _: () = {
         pub fn params(&self) -> impl Iterator<Item = Cow<str>> {
             unsafe {self.0.assume_init_ref()}
                 .params.iter()
-                .map(|slice| percent_decode_utf8(unsafe {slice.as_bytes()})
-                .expect("Non UTF-8 path params"))
+                .map(|slice| lossy_percent_decode_utf8(unsafe {slice.as_bytes()}))
         }
 
         /// Get request path as `Cow::Borrowed(&str)` if it's not percent-encoded, or,
@@ -42,7 +49,7 @@ const _: () = {
         pub fn str(&self) -> Cow<str> {
             let bytes = unsafe {self.0.assume_init_ref().raw.as_bytes()};
             if bytes.is_empty() {return Cow::Borrowed("/")}
-            percent_decode_utf8(bytes).expect("Non UTF-8 path params")
+            lossy_percent_decode_utf8(bytes)
         }
 
         #[inline] pub(crate) unsafe fn assume_one_param<'p>(&self) -> &'p [u8] {
